@@ -211,6 +211,23 @@ fn gen_eval(prop: &str, tier: &str, rng: &mut Rng, w: &mut dyn Write) {
             emit_hand(w, &p);
         }
     }
+    // 6. (thorough) ALL C(52,7) = 133,784,560 seven-card sets, as 22,100 blocks by their three lowest cards
+    if thorough {
+        for a in 0..52 {
+            for b in (a + 1)..52 {
+                for c in (b + 1)..52 {
+                    if c + 4 < 52 {
+                        writeln!(w, "eval7_block {} {} {}", a, b, c).unwrap();
+                    }
+                }
+            }
+        }
+    } else {
+        // a few blocks in the quick tier (the small ones near the end of the deck, and one seeded)
+        for (a, b, c) in [(44usize, 45usize, 46usize), (40, 41, 42), (30, 40, 45)] {
+            writeln!(w, "eval7_block {} {} {}", a, b, c).unwrap();
+        }
+    }
     // 5. uniform random hands
     for _ in 0..(if thorough { 2_000_000 } else { 20_000 }) {
         let h: Vec<usize> = rng.distinct(7, 52).into_iter().map(|x| x as usize).collect();
